@@ -111,16 +111,16 @@ def brightest_pixel(img, threshold, **kwargs):
 
     if len(img.shape)==2:
         pxlValue = numpy.sort(img.flatten())[-nPxls]
-        img = img - pxlValue
-        img = img.clip(0, img.max())
+        # clip first: for unsigned pixel counts "img - pxlValue" wraps around below pxlValue
+        img = numpy.maximum(img, pxlValue) - pxlValue
 
     else:
         # any number of leading axes: one value per image
         pxlValues = numpy.sort(
                         img.reshape(img.shape[:-2] + (img.shape[-1]*img.shape[-2],))
                         )[...,-nPxls]
-        img = img - pxlValues[..., None, None]
-        img = img.clip(0, img.max())
+        pxlValues = pxlValues[..., None, None]
+        img = numpy.maximum(img, pxlValues) - pxlValues
 
     return centre_of_gravity(img)
 
